@@ -13,7 +13,7 @@ kf = json.load(open(V + "/known_findings.json"))["findings"]
 modules = {'codec': 'lib/Chars, CodecOps, Codec, CodecBuild, trace/CodecTrace', 'dates': 'lib/Calendar, DatesOps, Dates, trace/DatesTrace',
            'datebounds': 'DateBounds, trace/DateBoundsTrace', 'datecompare': 'DateCompareRel, DateCompareOps, DateCompare, apalache/DateCompareInd, trace/DateCompareTrace',
            'nodeheap': 'NodeHeapOps, NodeHeap, trace/NodeHeapTrace', 'mergedocs': 'MergeDocsOps, MergeDocs, trace/MergeDocsTrace',
-           'matching': 'MatchingOps, MatchingLogOps, Matching (PlusCal), trace/MatchingTrace', 'similarity': 'SimilarityOps, Similarity, trace/SimilarityTrace',
+           'matching': 'MatchingOps, MatchingLogOps, Matching (PlusCal), trace/MatchingTrace', 'similarity': 'SimilarityOps, Similarity, NamesOps, Names, trace/SimilarityTrace, trace/NamesTrace',
            'document': 'DocumentOps, Document, trace/DocumentTrace', 'commands': 'CommandsOps, Commands, DiffPageOps, DiffPage (PlusCal), trace/CommandsTrace, trace/DiffPageTrace',
            'query': 'QueryOps, Query, trace/QueryTrace, trace/QueryCrashTrace', 'publish': 'PublishOps, Publish (PlusCal), PublishCases, trace/PublishTrace',
            'htmlstructure': 'HtmlStructureOps, HtmlStructure, trace/HtmlStructureTrace', 'warnings': 'WarningsOps, Warnings, trace/WarningsTrace'}
